@@ -15,7 +15,6 @@ import (
 	"errors"
 	"fmt"
 	"math/big"
-	"os"
 	"sort"
 	"strings"
 	"sync"
@@ -200,11 +199,11 @@ type c41Machine struct {
 	stop bool // history ended early (known-finding trigger reached)
 }
 
-// c41KnownGap reports whether the known finding "reorg-reinject-gap" is to be
-// excluded (listed by the lead in known_findings.json; VERIF_C41_ASSUME_KNOWN is a
-// private override used only while probing mutants).
+// c41KnownGap reports whether the finding "reorg-reinject-gap" is listed with status
+// "known" by the lead (it is recorded as fixed in /repo 86d662e9d5, so the gate is
+// inactive and the gapless-pending assertion is fully strict).
 func c41KnownGap() bool {
-	return vs.Known("TestVerifC41Machine", "reorg-reinject-gap") || os.Getenv("VERIF_C41_ASSUME_KNOWN") == "1"
+	return vs.Known("TestVerifC41Machine", "reorg-reinject-gap")
 }
 
 // reorgGapTrigger detects the exact signature of the known finding after a reorg
